@@ -209,26 +209,38 @@ Theorem refuse_mismatch fs g series applied sf af :
   (prefix_mismatch series applied = true \/ (length series < length applied)%nat) ->
   resolve_range fs g = RErr EMismatch.
 Proof.
-  intros Hs Hrs Ha Hra Hbad. unfold resolve_range. rewrite Hs, Hrs. cbn [rbind]. rewrite Ha, Hra.
+  intros Hs Hrs Ha Hra Hbad. unfold resolve_range, applied_readable, applied_count. rewrite Ha, Hra. cbn [rbind].
+  rewrite Hs, Hrs. cbn [rbind].
   destruct (prefix_mismatch series applied); [reflexivity|].
   destruct Hbad as [C|Hl]; [discriminate|]. destruct (Nat.ltb_spec (length series) (length applied)); [reflexivity|lia].
 Qed.
 
+(* an applied-patches file that is there but cannot be read as a list of patches - a directory in its place, an
+   option the series syntax does not know, ... - is refused as well, never taken for "nothing applied"; whatever
+   the series file holds *)
+Theorem refuse_unreadable_applied fs g :
+  match fs_read fs [b ".pc"; b "applied-patches"] with
+  | inl af => (forall applied, read_series (f_data af) <> ROk applied) /\ read_series (f_data af) <> RErr EOutOfModel
+  | inr e => e <> NotFound
+  end ->
+  resolve_range fs g = RErr EMismatch.
+Proof.
+  intros Hbad. unfold resolve_range, applied_readable.
+  destruct (fs_read fs [b ".pc"; b "applied-patches"]) as [af|e].
+  - destruct Hbad as [Hno Hoom]. destruct (read_series (f_data af)) as [applied|e|]; [exfalso; eapply Hno; reflexivity| |reflexivity].
+    destruct e; try reflexivity. exfalso. apply Hoom. reflexivity.
+  - destruct e; [exfalso; apply Hbad; reflexivity|reflexivity].
+Qed.
+
 Theorem refuse_goal fs name series first sf :
+  applied_readable fs = ROk tt ->
   fs_read fs [b "series"] = inl sf -> read_series (f_data sf) = ROk series ->
-  (forall r, (match fs_read fs [b ".pc"; b "applied-patches"] with
-              | inr _ => ROk 0%nat
-              | inl af => match read_series (f_data af) with
-                          | ROk applied => if prefix_mismatch series applied then RErr EMismatch
-                                           else if Nat.ltb (length series) (length applied) then RErr EMismatch
-                                           else ROk (length applied)
-                          | RErr EOutOfModel => RErr EOutOfModel
-                          | _ => ROk 0%nat end end) = r -> r = ROk first) ->
+  applied_count fs series = ROk first ->
   (position_of name series 0 = None \/ exists i, position_of name series 0 = Some i /\ (i < first)%nat) ->
   resolve_range fs (GUpTo name) = RErr EGoal.
 Proof.
-  intros Hs Hrs Hfirst Hbad. unfold resolve_range. rewrite Hs, Hrs. cbn [rbind].
-  rewrite (Hfirst _ eq_refl). cbn [rbind].
+  intros Hr Hs Hrs Hfirst Hbad. unfold resolve_range. rewrite Hr. cbn [rbind]. rewrite Hs, Hrs. cbn [rbind].
+  rewrite Hfirst. cbn [rbind].
   destruct Hbad as [->|(i & -> & Hi)]; [reflexivity|].
   destruct (Nat.ltb_spec i first); [reflexivity|lia].
 Qed.
@@ -610,9 +622,10 @@ Lemma resolve_all_done fs g series first last :
   resolve_range fs g = ROk (series, first, last) -> first = length series -> g = GAll \/ (exists n, g = GCount n) ->
   last = first.
 Proof.
-  unfold resolve_range. destruct (fs_read fs [b "series"]) as [sf|]; [|discriminate].
+  unfold resolve_range. destruct (applied_readable fs) as [[]| |]; cbn [rbind]; try discriminate.
+  destruct (fs_read fs [b "series"]) as [sf|]; [|discriminate].
   destruct (read_series (f_data sf)) as [s| |]; cbn [rbind]; try discriminate.
-  destruct (match fs_read fs [b ".pc"; b "applied-patches"] with inl _ => _ | inr _ => _ end) as [f| |]; cbn [rbind]; try discriminate.
+  destruct (applied_count fs s) as [f| |]; cbn [rbind]; try discriminate.
   intros H Hf [->|[n ->]]; cbn [rbind] in H.
   - injection H as <- <- <-. auto.
   - injection H as <- <- <-. subst. lia.
